@@ -1,5 +1,6 @@
 import Proofs.PrebuildFuel
 import Proofs.PrebuildCanon
+import Proofs.PrebuildFlatStmt   -- FLAT: the flat population between the two walkers
 
 /-!
   C05 — Prebuild followed by text generation reproduces the program.
@@ -113,5 +114,98 @@ def demoE : Block :=
 example : supported demoCtx (canon demoCtx demoE) = true := by decide
 example : parseGen demoCtx (genTokens (canon demoCtx demoE)) = some (canon demoCtx demoE) :=
   regen_parses_back demoCtx demoE (by decide)
+
+/-! ### FLAT — the population between the two walkers (PyxModel/Prebuild/Flat.lean, Proofs/PrebuildFlat.lean)
+
+  `Flat.prebuildFlat` is prebuild.py as a builder of ROWS of the ooaofooa classes (ACT_BLK, ACT_SMT + R603 subtypes,
+  V_VAL + R801 subtypes, V_VAR + R814 subtypes), `Flat.regenFlat` is sourcegen.py navigating those rows.
+
+  Full statement (NOT proved; decided case by case by the driver, which evaluates it on every body it dumps, and by
+  the population correspondence of harness/flat_pop.py):
+      theorem regen_of_prebuild (fc : FCtx) (a : Block) (h : flatOk fc (canon fc.toCtx a) = true) :
+          regenFlat (prebuildFlat fc (canon fc.toCtx a)) = genTokens (canon fc.toCtx a)
+  Proved: the VALUE level, for every expression of `coreE` (literals, enumerators / qualified constants, variable
+  reads, `selected`, parameter and attribute reads, unary and binary operations of any nesting depth), from ANY
+  builder state whose symbol table is sound, and stable under whatever the builder appends afterwards (`ext`):
+  reading the rows `buildExpr` wrote with `regenVal` prints exactly `genExpr e`.  Missing: the statement / block
+  level (R602 first-statement filter, R661 successor chain, R682 / R683 of elif / else). -/
+section Flat
+open Pyx.Prebuild.Flat
+
+theorem regen_of_prebuild_values (fc : FCtx) (e : Expr) (st : St) (hc : coreE e = true) (hs : SymOK st)
+    (ht : TSv st.pop) (hok : (buildExpr fc e st).2.ok = true) (ext : List Flat.Row) (fuel : Nat) (hf : szV e ≤ fuel) :
+    regenVal ((buildExpr fc e st).2.pop ++ ext) fuel (buildExpr fc e st).1 = genExpr e :=
+  (buildExpr_spec fc e st hc hs ht hok).regen ext fuel hf
+
+def flatFc : FCtx := { ees := [], classes := ["DOG"] }
+
+/-- a state inside the where clause of a select: the outer block, an instance handle `d`, the O_OBJ scope -/
+def flatSt : St :=
+  { pop := [.blk true, .var "d" 0, .vint 1 "DOG"], scopes := [⟨.obj "DOG", []⟩, ⟨.blk 0, []⟩], ok := true }
+
+/-- `((- 2) + (param.pi * 1.5)) <= selected.Age` -/
+def flatE : Expr :=
+  .bin (.bin (.un "-" (.int "2")) "+" (.bin (.param "pi") "*" (.real "1.5"))) "<=" (.field .selected "Age")
+
+theorem flatSt_symOK : SymOK flatSt := by
+  intro n v h
+  simp [flatSt, findSym, List.lookup] at h
+
+theorem flatSt_tsv : TSv flatSt.pop := by
+  intro i r k hi hr
+  have := List.mem_of_getElem? hi
+  simp [flatSt] at this
+  rcases this with rfl | rfl | rfl <;> simp [Flat.Row.valOf] at hr
+
+example : regenVal ((buildExpr flatFc flatE flatSt).2.pop ++ [Flat.Row.brk 0]) 9 (buildExpr flatFc flatE flatSt).1 = genExpr flatE :=
+  regen_of_prebuild_values flatFc flatE flatSt (by decide) flatSt_symOK flatSt_tsv (by decide) _ 9 (by decide)
+
+/-- BODY level, for the sub-subset `coreB`: statement lists (any length) of return (with / without a `coreE` value),
+    break, continue, control stop, create without variable, delete, relate / unrelate (+ using) with instance names
+    other than `self`: reading the population `prebuildFlat` builds back with `regenFlat` (outer block R666, R602
+    first-statement filter, R603 subtype dispatch, R661 successor chain to its end) prints `genTokens`.
+    `okAll`: the builder is `ok` after every statement (= `flatOk`, the flag is never set back).
+    MISSING for the full `regen_of_prebuild`: assignment, create with variable, select from (+where), for each, while,
+    if / elif / else (nested blocks: R605 / R607 / R608 / R658 / R606, R682 / R683), `self` as an instance name. -/
+theorem regen_of_prebuild_partial (fc : FCtx) (a : Block) (hc : coreB a = true) (hok : okAll fc none a bodySt = true) :
+    regenFlat (prebuildFlat fc a) = genTokens a :=
+  regenFlat_prebuildFlat fc a hc hok
+
+/-- the same for a statement list accepted in ANY sound builder state (inside a body, variables declared), stable
+    under rows appended later that name none of its rows (`FreshC`) -/
+theorem regen_of_statement_list (fc : FCtx) (ss : Block) (prev : Option Nat) (st : St) (hc : coreB ss = true)
+    (hinv : Inv st) (hprev : ∀ k, prev = some k → k < st.pop.length) (hok : okAll fc prev ss st = true)
+    (ext : List Flat.Row) (fuel : Nat) (hf : FreshC st.pop.length (buildStmts fc prev ss st).pop.length ext)
+    (hfuel : Flat.szB ss ≤ fuel) :
+    regenChain ((buildStmts fc prev ss st).pop ++ ext) fuel (headOf st.pop.length ss) = genBlock ss :=
+  (buildStmts_spec fc ss prev st hc hinv hprev hok).regen ext fuel hf hfuel
+
+/-- `create object instance of DOG; return (1 + (- 2.5)) < param.pi; break; control stop; return;` -/
+def coreBody : Block :=
+  .cons (.createNV "DOG")
+  (.cons (.ret (some (.bin (.bin (.int "1") "+" (.un "-" (.real "2.5"))) "<" (.param "pi"))))
+  (.cons .brk (.cons .ctl (.cons (.ret none) .nil))))
+
+example : regenFlat (prebuildFlat flatFc coreBody) = genTokens coreBody :=
+  regen_of_prebuild_partial flatFc coreBody (by decide) (by decide)
+
+/-- a TEST of the full statement on one body (if / elif / else, while, for each, select, relate): evaluation, no proof -/
+def flatBody : Block :=
+  .cons (.selFrom "many" "ds" "DOG")
+  (.cons (.assign (.var "n") (.int "0"))
+  (.cons (.forEach "d" "ds"
+      (.cons (.if_ (.bin (.field (.var "d") "Age") ">" (.int "3"))
+          (.cons (.assign (.var "n") (.bin (.var "n") "+" (.int "1"))) .nil)
+          (.cons (.bool "false") (.cons .brk .nil) .nil)
+          (.some (.cons (.relate "d" "d" "R2" "'chases'") .nil))) .nil))
+  (.cons (.while_ (.bin (.var "n") "<" (.int "10")) (.cons .cont .nil))
+  (.cons (.ret (some (.var "n"))) .nil))))
+
+set_option maxRecDepth 100000 in
+example : flatOk flatFc flatBody = true := by decide
+set_option maxRecDepth 100000 in
+example : regenFlat (prebuildFlat flatFc flatBody) = genTokens flatBody := by decide
+
+end Flat
 
 end PyxProps.C05
